@@ -522,4 +522,202 @@ theorem loop_spec {g : List Shape} {rank : Nat → Nat} (hA : Acyclic g rank) (f
         simp only [hlt, dite_true]
         exact hl
 
+/-! ### the range-checked loop (code as of 944e88e) refines the unbounded one when nothing overflows -/
+
+def Limits.fits (l : Limits) : Prop := l.maxPoints ≤ 65535 ∧ l.maxContours ≤ 65535 ∧ l.maxDepth ≤ 65535
+
+theorem foldl_accLimits_ge (xs : List Limits) (acc : Limits) :
+    Limits.le acc (xs.foldl accLimits acc) := by
+  rw [foldl_accLimits]; unfold Limits.le; simp only; omega
+
+theorem foldl_accLimitsC_eq (xs : List Limits) (acc : Limits) (flag : Bool)
+    (h : Limits.fits (xs.foldl accLimits acc)) :
+    xs.foldl accLimitsC (acc, flag) = (xs.foldl accLimits acc, flag) := by
+  induction xs generalizing acc with
+  | nil => rfl
+  | cons x xs ih =>
+    simp only [List.foldl_cons] at h ⊢
+    have hge := foldl_accLimits_ge xs (accLimits acc x)
+    unfold Limits.le at hge
+    unfold Limits.fits at h
+    have hstep : accLimitsC (acc, flag) x = (accLimits acc x, flag) := by
+      have e1 : (accLimits acc x).maxPoints = acc.maxPoints + x.maxPoints := rfl
+      have e2 : (accLimits acc x).maxContours = acc.maxContours + x.maxContours := rfl
+      have e3 : (accLimits acc x).maxDepth = max acc.maxDepth (x.maxDepth + 1) := rfl
+      rw [e1, e2, e3] at hge
+      unfold accLimitsC accLimits
+      simp only [Prod.mk.injEq, Limits.mk.injEq]
+      have h1 : acc.maxPoints + x.maxPoints ≤ 65535 := by omega
+      have h2 : acc.maxContours + x.maxContours ≤ 65535 := by omega
+      have h3 : x.maxDepth + 1 ≤ 65535 := by omega
+      refine ⟨⟨Nat.min_eq_left h1, Nat.min_eq_left h2, by rw [Nat.min_eq_left h3]⟩, ?_⟩
+      have d1 : decide (65535 < acc.maxPoints + x.maxPoints) = false := decide_eq_false (by omega)
+      have d2 : decide (65535 < acc.maxContours + x.maxContours) = false := decide_eq_false (by omega)
+      rw [d1, d2]; simp
+    rw [hstep]
+    exact ih _ h
+
+theorem stepGlyphC_sim (info : List GlyphInfo) (flag : Bool) (gid : Nat) :
+    (stepGlyph info gid = none → stepGlyphC info flag gid = none) ∧
+    (stepGlyph info gid = some none → stepGlyphC info flag gid = some none) ∧
+    (∀ l, stepGlyph info gid = some (some l) → Limits.fits l → stepGlyphC info flag gid = some (some (l, flag))) := by
+  unfold stepGlyph stepGlyphC
+  cases info[gid]? with
+  | none => simp
+  | some gi =>
+    simp only
+    cases gi.components with
+    | none => simp
+    | some comps =>
+      simp only
+      by_cases hany : comps.any (fun c => (info[c]?).isNone) = true
+      · simp [hany]
+      · simp only [hany, Bool.false_eq_true, if_false]
+        by_cases hall : (comps.map fun c => (info[c]?).bind (·.limits)).all Option.isSome = true
+        · simp only [hall, if_true]
+          refine ⟨by simp, by simp, ?_⟩
+          intro l hl hfit
+          simp only [Option.some.injEq] at hl
+          subst hl
+          rw [foldl_accLimitsC_eq _ _ _ hfit]
+        · simp [hall]
+
+/-- no composite's resolved totals leave the u16 range -/
+def Bounded (g : List Shape) (fuel : Nat) : Prop :=
+  ∀ gid, gid < g.length → isComposite g gid = true → Limits.fits (specLimits g fuel gid)
+
+theorem sweepC_sim {g : List Shape} {rank : Nat → Nat} (hA : Acyclic g rank) (fuel : Nat)
+    (hfuel : ∀ gid, gid < g.length → rank gid < fuel) (hB : Bounded g fuel) (flag : Bool) (ps : List Nat) :
+    ∀ (info : List GlyphInfo) (ov : Limits), Inv g (specLimits g fuel) info ov →
+    (∀ gid ∈ ps, isComposite g gid = true) →
+    sweepC info ov flag ps = (sweep info ov ps).map (fun r => (r.1, r.2.1, flag, r.2.2)) := by
+  induction ps with
+  | nil => intro info ov _ _; rfl
+  | cons gid rest ih =>
+    intro info ov hI hps
+    have hcg : isComposite g gid = true := hps gid List.mem_cons_self
+    obtain ⟨comps, hg⟩ := (isComposite_iff g gid).1 hcg
+    have hrest : ∀ x ∈ rest, isComposite g x = true := fun x hx => hps x (List.mem_cons_of_mem _ hx)
+    have hlt : gid < g.length := (List.getElem?_eq_some_iff.1 hg).1
+    obtain ⟨gi0, hgi0⟩ := getElem?_of_lt info gid (by rw [hI.len]; exact hlt)
+    obtain ⟨_, hsn, hss⟩ := stepGlyphC_sim info flag gid
+    rcases stepGlyph_spec hA fuel hfuel hI gid comps hg with ⟨hstep, _⟩ | hstep
+    · simp only [sweep, sweepC, hstep, hsn hstep, ih info ov hI hrest]
+      cases sweep info ov rest <;> rfl
+    · have hfit := hB gid hlt hcg
+      simp only [sweep, sweepC, hstep, hss _ hstep hfit]
+      exact ih _ _ (Inv_setLimits hI gid gi0 hgi0 hcg) hrest
+
+theorem compositeLoop_step {info : List GlyphInfo} {ov : Limits} {pending : List Nat} (hne : pending ≠ [])
+    {info' : List GlyphInfo} {ov' : Limits} {kept : List Nat} (hs : sweep info ov pending = some (info', ov', kept)) :
+    compositeLoop info ov pending =
+      if kept.length < pending.length then compositeLoop info' ov' kept else none := by
+  rw [compositeLoop]
+  simp only [hne, dite_false]
+  split
+  · rename_i heq; rw [hs] at heq; cases heq
+  · rename_i i2 o2 k2 heq
+    rw [hs] at heq; cases heq
+    by_cases h : kept.length < pending.length <;> simp [h]
+
+theorem compositeLoopC_step {info : List GlyphInfo} {ov : Limits} {flag : Bool} {pending : List Nat}
+    (hne : pending ≠ []) {info' : List GlyphInfo} {ov' : Limits} {f' : Bool} {kept : List Nat}
+    (hs : sweepC info ov flag pending = some (info', ov', f', kept)) :
+    compositeLoopC info ov flag pending =
+      if kept.length < pending.length then compositeLoopC info' ov' f' kept else none := by
+  rw [compositeLoopC]
+  simp only [hne, dite_false]
+  split
+  · rename_i heq; rw [hs] at heq; cases heq
+  · rename_i i2 o2 f2 k2 heq
+    rw [hs] at heq; cases heq
+    by_cases h : kept.length < pending.length <;> simp [h]
+
+theorem loopC_sim {g : List Shape} {rank : Nat → Nat} (hA : Acyclic g rank) (fuel : Nat)
+    (hfuel : ∀ gid, gid < g.length → rank gid < fuel) (hB : Bounded g fuel) (flag : Bool) :
+    ∀ (k : Nat) (pending : List Nat), pending.length = k →
+    ∀ (info : List GlyphInfo) (ov : Limits), Inv g (specLimits g fuel) info ov →
+    (∀ gid ∈ pending, isComposite g gid = true) →
+    compositeLoopC info ov flag pending = (compositeLoop info ov pending).map (fun l => (l, flag)) := by
+  intro k
+  induction k using Nat.strongRecOn with
+  | _ k ih =>
+    intro pending hk info ov hI hvalid
+    by_cases hne : pending = []
+    · subst hne; rw [compositeLoopC, compositeLoop]; simp
+    · obtain ⟨info', ov', kept, hs, hI', hsub, _, _, _⟩ := sweep_spec hA fuel hfuel pending info ov hI hvalid
+      have hsC := sweepC_sim hA fuel hfuel hB flag pending info ov hI hvalid
+      rw [hs] at hsC
+      simp only [Option.map_some] at hsC
+      rw [compositeLoop_step hne hs, compositeLoopC_step hne hsC]
+      by_cases hlt : kept.length < pending.length
+      · simp only [hlt, if_true]
+        exact ih kept.length (by omega) kept rfl info' ov' hI' (fun gid h => hvalid gid (hsub.subset h))
+      · simp [hlt]
+
+theorem mem_compositeGids_of_shapes (gs : List Glyph) (gid : Nat) :
+    gid ∈ compositeGids ((maxBuilderOf gs).glyphInfo) ↔
+      (gid < gs.length ∧ isComposite (gs.map (·.shape)) gid = true) := by
+  rw [maxBuilderOf_glyphInfo]
+  unfold compositeGids isComposite
+  simp only [List.mem_filter, List.mem_range, List.length_map, List.getElem?_map]
+  constructor
+  · rintro ⟨hlt, h⟩
+    refine ⟨hlt, ?_⟩
+    have : gs[gid]? = some gs[gid] := by simp [hlt]
+    rw [this] at h ⊢
+    simp only [Option.map_some] at h ⊢
+    cases hs : gs[gid].shape <;> simp [hs, infoOfShape] at h ⊢
+  · rintro ⟨hlt, h⟩
+    refine ⟨hlt, ?_⟩
+    have : gs[gid]? = some gs[gid] := by simp [hlt]
+    rw [this] at h ⊢
+    simp only [Option.map_some] at h ⊢
+    cases hs : gs[gid].shape <;> simp [hs, infoOfShape] at h ⊢
+
+/-- the state after the `MaxBuilder::update` fold satisfies the worklist invariant -/
+theorem Inv_initial (gs : List Glyph) (rank : Nat → Nat) (fuel : Nat)
+    (hfuel : ∀ gid, gid < gs.length → rank gid < fuel) :
+    Inv (gs.map (·.shape)) (specLimits (gs.map (·.shape)) fuel) ((maxBuilderOf gs).glyphInfo) {} := by
+  let g := gs.map (·.shape)
+  show Inv g (specLimits g fuel) ((maxBuilderOf gs).glyphInfo) {}
+  rw [maxBuilderOf_glyphInfo]
+  have hget : ∀ (gid : Nat) (gi : GlyphInfo), (gs.map (fun x => infoOfShape x.shape))[gid]? = some gi →
+      ∃ sh, g[gid]? = some sh ∧ gi = infoOfShape sh := by
+    intro gid gi h
+    simp only [List.getElem?_map, Option.map_eq_some_iff] at h
+    obtain ⟨x, hx, rfl⟩ := h
+    exact ⟨x.shape, by simp [g, hx], rfl⟩
+  refine ⟨by simp [g], ?_, ?_, ?_, ?_, ?_⟩
+  · intro gid gi h
+    obtain ⟨sh, hsh, rfl⟩ := hget gid gi h
+    exact ⟨sh, hsh, rfl⟩
+  · intro gid gi l h hl
+    obtain ⟨sh, hsh, rfl⟩ := hget gid gi h
+    have hlt : gid < g.length := (List.getElem?_eq_some_iff.1 hsh).1
+    have hf := hfuel gid (by simpa [g] using hlt)
+    obtain ⟨f, rfl⟩ : ∃ f, fuel = f + 1 := ⟨fuel - 1, by omega⟩
+    cases sh with
+    | empty =>
+      simp only [infoOfShape, Option.some.injEq] at hl
+      subst hl
+      simp [specLimits, specPoints, specContours, specDepth, hsh]
+    | simple cs =>
+      simp only [infoOfShape, Option.some.injEq] at hl
+      subst hl
+      simp [specLimits, specPoints, specContours, specDepth, hsh]
+    | composite comps => simp [infoOfShape] at hl
+  · intro gid gi h hl
+    obtain ⟨sh, hsh, rfl⟩ := hget gid gi h
+    cases sh with
+    | empty => simp [infoOfShape] at hl
+    | simple cs => simp [infoOfShape] at hl
+    | composite comps => exact (isComposite_iff g gid).2 ⟨comps, hsh⟩
+  · intro gid gi h hc hs
+    obtain ⟨sh, hsh, rfl⟩ := hget gid gi h
+    obtain ⟨comps, hcomps⟩ := (isComposite_iff g gid).1 hc
+    rw [hsh] at hcomps; cases hcomps
+    simp [infoOfShape] at hs
+  · exact ⟨Or.inl rfl, Or.inl rfl, Or.inl rfl⟩
+
 end Fontc.Limits
